@@ -32,13 +32,53 @@ fn parse_single_line_description(
         .parse_source_of_kind(TokenKind::StringLiteral)
         .map(|parsed_str| {
             parsed_str.map(|source_with_quotes| {
-                source_with_quotes[1..source_with_quotes.len() - 1]
+                unescape_string_literal(&source_with_quotes[1..source_with_quotes.len() - 1])
                     .intern()
                     .into()
             })
         })
         .ok()
 }
+// https://spec.graphql.org/June2018/#sec-String-Value
+// Block string descriptions are cleaned, so quoted descriptions have their escape sequences
+// replaced, and neither kind of description contains source-level syntax.
+fn unescape_string_literal(source: &str) -> String {
+    let mut output = String::with_capacity(source.len());
+    let mut chars = source.chars();
+    while let Some(c) = chars.next() {
+        if c != '\\' {
+            output.push(c);
+            continue;
+        }
+        match chars.next() {
+            Some('b') => output.push('\u{8}'),
+            Some('f') => output.push('\u{c}'),
+            Some('n') => output.push('\n'),
+            Some('r') => output.push('\r'),
+            Some('t') => output.push('\t'),
+            Some('u') => {
+                let code_point = chars
+                    .as_str()
+                    .get(..4)
+                    .and_then(|hex| u32::from_str_radix(hex, 16).ok().and_then(char::from_u32));
+                match code_point {
+                    Some(code_point) => {
+                        output.push(code_point);
+                        chars.nth(3);
+                    }
+                    // The lexer only produces valid escape sequences, except that \uXXXX may
+                    // name a surrogate. Keep those as written.
+                    None => output.push_str("\\u"),
+                }
+            }
+            // \" \\ \/
+            Some(other) => output.push(other),
+            None => output.push('\\'),
+        }
+    }
+    output
+}
+
 // https://spec.graphql.org/June2018/#sec-String-Value
 pub(crate) fn clean_block_string_literal(source: &str) -> String {
     // \""" is the only escape sequence in a block string
